@@ -177,7 +177,12 @@ func init() {
 			Alphabet: relAlphabet(relOpts{path: model.PathMapN, maxAlive: 4, shrink: true, batch: true, nTargets: 2, self: true}),
 			Depth:    depth,
 		})
-		return &Check{ID: "C04", Scenarios: scs,
+		// 36 targets / child tables: batch operations over more than 32 tables
+		scs = append(scs, scaleTargets(depth-1, drv.Oracle{World: true, Typed: true, Filters: true, Lock: true, Stats: true})...)
+		chk := &Check{ID: "C04", Scenarios: scs,
 			Rule: "all histories over the relation alphabet (create child/target, set/add/remove relation, remove entity, batch removal by filter and target, batch retarget, Shrink, Reset) from 6 preludes; distinct = distinct model states; non-trivial = at least one alive entity holds a relation"}
+		addThreshold(chk, "wide-entities", wideSweep, "threshold sweep: entities with r in {1,2,7,8,9,10} relation components and w in {0,...,15,16,17,18,31,32,33,40} other components (types synthesised by reflection): targets set, changed, dying singly and in a batch, plain components removed; expectation after every step")
+		addThreshold(chk, "many-targets", manyTargetsSweep, "n in {2,...,255,256,257,258} targets removed by one RemoveEntities call, children reset to the zero target")
+		return chk
 	}
 }
